@@ -1,8 +1,8 @@
-SPECIFICATION ThoroughSpec
+SPECIFICATION BindingSpecQuick
 CONSTANTS
   Mutation = "none"
-  AdversaryOn = FALSE
+  AdversaryOn = TRUE
   Emit = TRUE
-INVARIANT Inv
+INVARIANT BindingInv
 INVARIANT EmitReplay
 CHECK_DEADLOCK FALSE
